@@ -1,1 +1,65 @@
-From EdxmlVerif Require Import Base.Prelude Event.Repr.
+(* C07 — Event representations are interchangeable and stay coherent under mutation.
+   Statements only (proofs in Event/Repr_proofs.v).
+   `sstep` is the dictionary-of-sets model; `ostep`/`xstep` model the XML backed classes
+   (EventElement, ParsedEvent): cached views with write-through callbacks over the XML content. *)
+From EdxmlVerif Require Import Base.Prelude Base.Bytes Event.Repr Event.Repr_proofs.
+
+(* For every initial content, both XML backed classes and EVERY sequence of public mutations:
+   each call raises exactly when the model says so, afterwards the mapping view / getters show the
+   model's state (R), and the XML element handed to writers contains exactly what the views show. *)
+Theorem C07_refines_and_coherent : forall k s0 i ops,
+  let o0 := fresh k s0 i in
+  snd (orun i o0 ops) = snd (srun s0 ops) /\
+  R (fst (orun i o0 ops)) (fst (srun s0 ops)) /\
+  coherent (fst (orun i o0 ops)).
+Proof.
+  intros k s0 i ops o0.
+  destruct (orun_refines i ops o0 s0 (fresh_owned k s0 i) (fresh_coherent k s0 i) (fresh_R k s0 i)) as (A & B & C & _).
+  split; [exact A|]. split; [exact B | exact C].
+Qed.
+Print Assumptions C07_refines_and_coherent.
+
+(* One step, from any reachable object: same statement (used for histories that interleave objects). *)
+Theorem C07_step : forall i o s e, coherent o -> R o s ->
+  snd (ostep i o e) = snd (sstep s e) /\ R (fst (ostep i o e)) (fst (sstep s e)) /\ coherent (fst (ostep i o e)).
+Proof. exact ostep_sim. Qed.
+Print Assumptions C07_step.
+
+(* In a heap of events (callbacks are bound methods of an owner object): with the repaired copy(),
+   for every history of operations and copies the invariant "every callback of an event is bound to the
+   event itself, and its XML equals its views" holds ... *)
+Theorem C07_heap_invariant : forall ops h, hinv h -> hinv (hrun CopyFixed h ops).
+Proof. exact hrun_inv. Qed.
+Print Assumptions C07_heap_invariant.
+
+(* ... the heap step is the local step of the target ... *)
+Theorem C07_heap_step_is_local : forall h i o e, hget h i = Some o -> owned i o ->
+  xstep h i e = (hupd h i (fun _ => fst (ostep i o e)), snd (ostep i o e)).
+Proof. exact xstep_local. Qed.
+Print Assumptions C07_heap_step_is_local.
+
+(* ... hence a copy never shares state with its original: an operation on one event leaves every other
+   event's views and XML untouched, and copying leaves all existing events untouched. *)
+Theorem C07_copy_independent : forall h o j oj, hinv h -> hget h j = Some oj ->
+  (match o with Op i _ => i <> j | Copy _ => True end) ->
+  hget (hstep CopyFixed h o) j = Some oj.
+Proof. exact hstep_frame. Qed.
+Print Assumptions C07_copy_independent.
+
+(* The pre-fix EventElement.copy() (deepcopy keeps the callbacks of the original) violates both clauses: *)
+Theorem C07_deepcopy_refuted :
+  exists h0 ops, let h := hrun CopyDeep h0 ops in
+    (exists o0, hget (hrun CopyDeep h0 (firstn 2 ops)) 0 = Some o0 /\
+                option_map (fun o => xml_props o wp) (hget h 0) <> Some (xml_props o0 wp)) /\
+    (exists o1, hget h 1 = Some o1 /\ view_props o1 wp <> xml_props o1 wp).
+Proof.
+  exists [fresh KElement w_s0 0], w_hist. cbn zeta. split.
+  - eexists. split; [vm_compute; reflexivity|]. vm_compute. discriminate.
+  - eexists. split; [vm_compute; reflexivity|]. vm_compute. discriminate.
+Qed.
+Print Assumptions C07_deepcopy_refuted.
+
+Example C07_nonvacuous :
+  let '(o, flags) := orun 0 (fresh KParsed w_s0 0) [ObjRemove wp [120]%N; ObjAdd wp [98]%N; Flush; DelItem wp] in
+  flags = [false; true; true; true] /\ view_props o wp = [] /\ xml_props o wp = [].
+Proof. vm_compute. repeat split; reflexivity. Qed.
